@@ -406,6 +406,18 @@ def cases(rng, tier):
         sm = 1
         for _ in range(rng.randrange(1, 6)): sm *= rng.choice(primes_below(30))
         both(sm * rand_prime(rng, rng.choice([16, 30, 44, 60, 65])), 'smooth-x-rough', i)
+    # Carmichael numbers (Chernick triples (6k+1)(12k+1)(18k+1) with three prime factors): a primality test weakened to a
+    # Fermat test accepts them for almost every base, the drivers would then return [(n,1)]; the factors are small enough
+    # (10-22 bits) for ECM with the selected B1 to split n quickly in the extracted model too
+    cher = []
+    k = 1
+    while len(cher) < (6 if not th else 30) and k < 400000:
+        a, b, c = 6 * k + 1, 12 * k + 1, 18 * k + 1
+        if k > 150 and is_prime_det(a) and is_prime_det(b) and is_prime_det(c): cher.append(a * b * c)
+        k += 1 if len(cher) < 3 else 97
+    for n in cher:
+        i += 1
+        both(n, 'carmichael-large-factors', i)
     for n in (1, 0, -1, -91, -2 ** 70):
         for prof in profs:
             for op in ('ecm_factorize', 'ecmpar_factorize'):
